@@ -134,6 +134,7 @@ class Func:
         self.entry = d.get("entry")
         self.exit = d.get("exit")
         self.cfg_failed = bool(d.get("cfg_failed"))
+        self.inlined = list(d.get("inlined", []))      # helpers normalize.py spliced in (N3)
         # `if (A && B)`: the block that ends in the IfStmt evaluates only B (it
         # is reached with A true), so on its edges the whole condition is
         # equivalent to its rightmost operand.  Narrow it once, here; the
